@@ -1,0 +1,20 @@
+//go:build verif
+
+package try
+
+// Mixed builder chains (added after a seeded change slipped through): eager
+// operands given with ApTry — several of which may fail — followed by a
+// FlatMap / Map / HListFlatMap / HListMap finisher.  The result is the failure
+// of the FIRST failing operand, the finisher's function is not called after a
+// failure (EqT against the nested FlatMap expression).
+
+//@ import "github.com/csgura/fp/hlist"
+//
+//@ schema N=2..6
+//@ lemma chain{N}ApTryThenFlatMap[<<i=1..N|, |A$i>>, R any](f func(<<i=1..N|, |A$i>>) R<<i=1..N-1||, x$i fp.Try[A$i]>>, g func(A{N-1}) fp.Try[A{N}], k func(A{N-1}) A{N})
+//@   prop C02 C01
+//@   ensures EqT(Chain{N}(f)<<i=1..N-1||.ApTry(x$i)>>.FlatMap(g), <<i=1..N-1||FlatMap(x$i, func(a$i A$i) fp.Try[R] { return >>FlatMap(g(a{N-1}), func(a{N} A{N}) fp.Try[R] { return Success(f(<<i=1..N|, |a$i>>)) })<<i=1..N-1|| })>>)
+//@   tag flatMap
+//@   ensures EqT(Chain{N}(f)<<i=1..N-1||.ApTry(x$i)>>.Map(k), <<i=1..N-1||FlatMap(x$i, func(a$i A$i) fp.Try[R] { return >>Success(f(<<i=1..N-1|, |a$i>>, k(a{N-1})))<<i=1..N-1|| })>>)
+//@   tag map
+//@ schema end
